@@ -262,3 +262,55 @@ func FormulaThreshold(t *rapid.T, minN, maxN int) (int, [][]int) {
 	ratio := Uniform(t, 400, 460, "ratio")
 	return n, KSAT(t, n, n*ratio/100, 3)
 }
+
+// PropagationChain draws a CNF whose unit propagation runs deep: a hidden assignment A, one or two
+// unit clauses, then for the other variables (in a drawn order) a clause holding the variable's
+// literal true under A plus 1-2 literals over earlier variables false under A, so each becomes
+// unit once the earlier ones are known; some extra clauses satisfied by A and, in a third of the
+// cases, one clause false under A (the formula is then refuted by propagation alone). The clause
+// order is shuffled, so units appear before, between and after the clauses they shorten; a unit
+// is sometimes written with its literal repeated.
+func PropagationChain(t *rapid.T, minN, maxN int) (int, [][]int) {
+	n := Uniform(t, minN, maxN, "n")
+	val := make([]bool, n+1)
+	for v := 1; v <= n; v++ {
+		val[v] = rapid.Bool().Draw(t, "a")
+	}
+	lit := func(v int, wantTrue bool) int {
+		if val[v] == wantTrue {
+			return v
+		}
+		return -v
+	}
+	order := rapid.Permutation(seq(1, n)).Draw(t, "chainOrder")
+	roots := Uniform(t, 1, min(2, n), "roots")
+	chain := Uniform(t, roots, n, "chainLen")
+	var cls [][]int
+	for i := 0; i < roots; i++ {
+		u := []int{lit(order[i], true)}
+		if Chance(t, 1, 5, "hiddenUnit") {
+			u = append(u, u[0])
+		}
+		cls = append(cls, u)
+	}
+	for i := roots; i < chain; i++ {
+		c := []int{lit(order[i], true)}
+		for k, m := 0, Uniform(t, 1, min(2, i), "antecedents"); k < m; k++ {
+			c = append(c, lit(order[Uniform(t, 0, i-1, "ante")], false))
+		}
+		cls = append(cls, rapid.Permutation(c).Draw(t, "litOrder"))
+	}
+	for k, m := 0, rapid.IntRange(0, 4).Draw(t, "extra"); k < m; k++ {
+		c := DistinctLits(t, n, Uniform(t, 2, min(3, n), "elen"), "e")
+		c[0] = lit(abs(c[0]), true) // satisfied by A
+		cls = append(cls, c)
+	}
+	if Chance(t, 1, 3, "conflict") {
+		var c []int
+		for k, m := 0, Uniform(t, 1, min(3, chain), "clen"); k < m; k++ {
+			c = append(c, lit(order[Uniform(t, 0, chain-1, "cv")], false))
+		}
+		cls = append(cls, c)
+	}
+	return n, rapid.Permutation(cls).Draw(t, "clauseOrder")
+}
